@@ -557,5 +557,61 @@ theorem pass_refines (R : Bool) (dp : List Plug) (fuel : Nat) (c : CS) (a0 : Act
     exact hk.cont h
 
 
+theorem innerLoop_nopush (now : Time) (fuel : Nat) (d : Dev) (a : Action) (o : Oracle) (acc : List Out)
+    (h : pushed d a o now = false) :
+    innerLoop now fuel d a o acc = { processStmt d a o now with out := acc ++ (processStmt d a o now).out } := by
+  cases fuel with
+  | zero => rfl
+  | succ f => rw [innerLoop]; unfold pushed at h; simp only [h, Bool.false_eq_true, ↓reduceIte]
+
+/-- the fuel of the `do … while` does not matter once it covers the nesting depth of the statement the action stands
+    at: in particular the mirror with `loopBound` behaves as the mirror with the former literal 64 did wherever that
+    was enough -/
+theorem innerLoop_fuel_irrelevant (R : Bool) (dp : List Plug) (now : Time) : ∀ (f1 f2 : Nat) (d : Dev) (a : Action)
+    (o : Oracle) (acc : List Out), Inv R dp d a → a.exec ≠ [] → topDepth a ≤ f1 → topDepth a ≤ f2 →
+    innerLoop now f1 d a o acc = innerLoop now f2 d a o acc := by
+  intro f1
+  induction f1 with
+  | zero =>
+    intro f2 d a o acc hinv hne h1 _
+    obtain ⟨j, a1, _, _, _, _, _, _, _, _⟩ := innerLoop_trip R dp now 0 d a o acc hinv hne h1
+    have hnp : pushed d a o now = false := by
+      cases hex : a.exec with
+      | nil => exact absurd hex hne
+      | cons e rest =>
+        obtain ⟨s, hcur⟩ := getElem?_some_of_lt (hinv.ok.2.2 e (by rw [hex]; rfl))
+        unfold pushed
+        by_cases hp : (processStmt d a o now).act.exec.length > a.exec.length
+        · have := (push_facts d a o now e rest s hex hcur hp).2.2.2.2; omega
+        · simp [hp]
+    rw [innerLoop_nopush now 0 d a o acc hnp, innerLoop_nopush now f2 d a o acc hnp]
+  | succ f ih =>
+    intro f2 d a o acc hinv hne h1 h2
+    by_cases hpu : pushed d a o now = true
+    · cases hex : a.exec with
+      | nil => exact absurd hex hne
+      | cons e rest =>
+        obtain ⟨s, hcur⟩ := getElem?_some_of_lt (hinv.ok.2.2 e (by rw [hex]; rfl))
+        have hpu' := hpu
+        unfold pushed at hpu'
+        simp only [Bool.and_eq_true, decide_eq_true_eq] at hpu'
+        obtain ⟨p1, p2, p3, p4, p5⟩ := push_facts d a o now e rest s hex hcur hpu'.2
+        have hm := mstep_push now d a o hpu'.1 hpu'.2
+        have hkeep := (mstep_sim R dp now d a o hne hinv.ranged hinv.plugs hinv.ok hinv.err).2
+        have hfrm := mstep_frame now d a o
+        rw [hm] at hkeep hfrm
+        simp only [true_or, forall_const] at hkeep
+        have hinv1 : Inv R dp (processStmt d a o now).dev (processStmt d a o now).act :=
+          ⟨by rw [hfrm.2.2.2.1]; exact hinv.ranged, by rw [hfrm.1]; exact hinv.plugs, hkeep.1, hkeep.2⟩
+        have hne1 : (processStmt d a o now).act.exec ≠ [] := by
+          intro h; rw [h] at hpu'; simp at hpu'
+        cases f2 with
+        | zero => omega
+        | succ g =>
+          rw [innerLoop, innerLoop]
+          simp only [hpu'.1, hpu'.2, decide_true, Bool.and_self, ↓reduceIte]
+          exact ih g _ _ _ _ hinv1 hne1 (by omega) (by omega)
+    · have hnp : pushed d a o now = false := by simpa using hpu
+      rw [innerLoop_nopush now _ d a o acc hnp, innerLoop_nopush now f2 d a o acc hnp]
 
 end Pm.Dev2.Interp
